@@ -365,17 +365,26 @@ def build_timing(desc):
     """desc: dict(p=program desc | None, n=program desc | None, cnt0, k0, arst) -> (module, signals)"""
     from amaranth.hdl import Module, ClockDomain, Signal, Print, Format, Assert, Assume, Cover, Cat, signed
     m = Module()
-    cd_p = ClockDomain("p", async_reset=bool(desc.get("arst")))
+    cd_p = ClockDomain("p", clk_edge=desc.get("p_edge", "pos"), async_reset=bool(desc.get("arst")))
     cd_n = ClockDomain("n", clk_edge="neg")
     m.domains.p = cd_p
     m.domains.n = cd_n
     x = Signal(2, name="x")
     cnt = Signal(2, name="cnt", init=desc["cnt0"])
-    k = Signal(1, name="k", init=desc["k0"])
+    mon = desc.get("monitor")          # None or (name, submodule?, reset_less k?, top registers?)
+    k = Signal(1, name="k", init=desc["k0"], reset_less=bool(mon and mon[2]))
     sg = Signal(signed(3), name="sg", init=R.sg_of(desc["cnt0"], desc["k0"]))     # registered signed value
-    m.d.p += sg.eq(Cat(x, k))
+    if not mon or mon[3]:
+        m.d.p += sg.eq(Cat(x, k))
+    if mon and mon[3]:
+        with m.If(x[1]):
+            m.d.p += cnt.eq(cnt + 1)
+    top = m
+    if mon and mon[1]:
+        m = Module()                    # the statements go to a separate submodule (a pure monitor)
+        top.submodules.mon = m
     wire = Signal(name="w")
-    m.d.comb += wire.eq(x[0] & x[1])
+    top.d.comb += wire.eq(x[0] & x[1])
 
     def expr(name):
         return {"x0": x[0], "x1": x[1], "nx0": ~x[0], "c0": cnt[0], "c1": cnt[1], "k": k, "w": wire, "x": x, "cnt": cnt,
@@ -396,10 +405,10 @@ def build_timing(desc):
                 else:
                     m.d[dom] += ctor(expr(st[2]), Format("{}{}:{}:{}:{}", kind, st[1], x, cnt, k))
             elif kind == "R":
-                if dom == "p":
+                if dom == "p" and not mon:
                     m.d.p += cnt.eq(cnt + 1)
                 else:
-                    m.d.n += k.eq(~k)
+                    m.d[dom] += k.eq(~k)
             elif kind == "if":
                 for i, (cond, body) in enumerate(st[1]):
                     cm = m.If(expr(cond)) if i == 0 else (m.Else() if cond is None else m.Elif(expr(cond)))
@@ -414,8 +423,10 @@ def build_timing(desc):
                 raise ValueError(kind)
     progs = {}
     for dom in ("p", "n"):
-        progs[dom] = G.program(*desc[dom], reg_hole=desc.get("reg_hole", 0)) if desc.get(dom) else []
+        progs[dom] = G.program(*desc[dom], reg_hole=desc.get("reg_hole", 0), with_reg=not mon or bool(mon[2])) \
+            if desc.get(dom) else []
         emit(dom, progs[dom])
+    m = top
     clocks = [cd_p.clk, cd_n.clk] + ([cd_p.rst] if desc.get("arst") else [])
     return m, {"x": x, "clkcat": Cat(*clocks)}, progs
 
@@ -481,15 +492,24 @@ class SeqRunner:
         return (tuple((a, tuple(sorted(b.splitlines()))) for a, b in rec), st["initial"], st["step"], st["phase"], exc is None)
 
 
+def model_opts(desc):
+    mon = desc.get("monitor")
+    if not mon:
+        return {"p_edge": desc.get("p_edge", "pos")}
+    return {"p_edge": desc.get("p_edge", "pos"), "p_reg": "k", "top_regs": bool(mon[3]), "top_cnt": bool(mon[3])}
+
+
 STAT_KEYS = ("steps", "active_edges", "inactive_edges", "prints", "stops", "no_edge", "unconstrained",
-             "active_edges_nothing_enabled", "rst_events", "both_domains_edge")
+             "active_edges_nothing_enabled", "rst_events", "both_domains_edge",
+             "mon_rst_rise_would_fail", "mon_rst_rise_would_pass", "mon_rst_rise_would_print", "mon_rst_fall_would_fail",
+             "mon_rst_fall_would_pass", "mon_rst_fall_would_print")
 
 
 def check_sequence(desc, progs, runner, seq):
     """Run `seq` from reset and compare every step with the reference model.
     -> (verdict | None, stopped, stats of the LAST step): verdict = (kind, detail, step index, explanation);
     stopped = the run ended with a legitimate AssertionError (or in an unconstrained step)"""
-    model = R.TimingModel(progs["p"], progs["n"], desc["cnt0"], desc["k0"], arst=bool(desc.get("arst")))
+    model = R.TimingModel(progs["p"], progs["n"], desc["cnt0"], desc["k0"], arst=bool(desc.get("arst")), **model_opts(desc))
     rec, st, exc = runner.run(seq)
     stats = dict.fromkeys(STAT_KEYS, 0)
     if st["initial"]:
@@ -503,6 +523,13 @@ def check_sequence(desc, progs, runner, seq):
         stats["steps"] += 1
         if exp["rst_event"]:
             stats["rst_events"] += 1
+        if exp["hypo"] and desc.get("monitor"):
+            # a reset edge that is not an active clock edge, in a design whose statements live in a fragment without
+            # resettable registers: classify what running the statements (wrongly) would do
+            which, would_print, would_fail = exp["hypo"]
+            stats[f"mon_rst_{which}_would_{'fail' if would_fail else 'pass'}"] += 1
+            if would_print:
+                stats[f"mon_rst_{which}_would_print"] += 1
         if exp["unconstrained"]:
             stats["unconstrained"] += 1
             if raised_here:
@@ -583,7 +610,8 @@ def timing_tag(desc):
             return "-"
         outer, h, inner, rot = d
         return outer + (f"[{h}:{inner}]" if h is not None else "") + (f"~{rot}" if rot else "")
-    return f"p={one(desc.get('p'))},n={one(desc.get('n'))}" + (",arst" if desc.get("arst") else "")
+    return f"p={one(desc.get('p'))},n={one(desc.get('n'))}" + (",arst" if desc.get("arst") else "") + \
+        (f",mon={desc['monitor'][0]},{desc.get('p_edge', 'pos')}" if desc.get("monitor") else "")
 
 
 def w_timing(task):
@@ -703,6 +731,13 @@ def timing_tasks(rep):
     for outer in ("bare", "ifelse", "sw_default"):
         desc = {"p": (outer, None, None, 0), "n": None, "arst": True, "reg_hole": 0}
         tasks.append(("timing", (desc, [(0, 0, L), (2, 0, L - 1)], rep.pick(2, 4)), rep.tier))
+    # asynchronous reset, statements in a fragment without any resettable register (pure monitor submodule / flat design
+    # without registers / with a reset_less register only), rising- and falling-edge domain
+    for variant in G.MONITOR_VARIANTS:
+        for edge in ("pos", "neg"):
+            for j, outer in enumerate(G.MONITOR_FORMS):
+                desc = {"p": (outer, None, None, 0), "n": None, "arst": True, "reg_hole": j, "monitor": list(variant), "p_edge": edge}
+                tasks.append(("timing", (desc, [(0, 0, L), (2, 1, L - 1), (3, 0, L - 1)], rep.pick(2, 4)), rep.tier))
     return tasks
 
 
@@ -743,7 +778,8 @@ def run(rep):
                "message of the failing Assert == Python format(). Part B: control-flow programs (12 forms, nesting depth <= 2, every hole "
                "holds Print/Assert/Cover/Assume/Print; tests and If conditions include 2-3 bit unsigned / signed values taken directly from "
                "an input, registers, slices and expressions: pass iff NON-ZERO) in a rising- and a falling-edge domain (+3 designs with "
-               "an asynchronous reset); ALL "
+               "an asynchronous reset, +24 asynchronous-reset designs (rising / falling edge) whose statements sit in a fragment without "
+               "any resettable register: separate monitor submodule or flat, no register or a reset_less one); ALL "
                "sequences of (input valuation, clock toggle mask) actions up to the stated length from every register initial state "
                "(extensions of a sequence that ended in an AssertionError are not run), each one a separate Simulator.run(). "
                "distinct_nontrivial = accepted (spec, operand, value) triples whose expected text differs from str(value), plus timing "
@@ -771,7 +807,9 @@ def run(rep):
     rep.require(not guards or not missing, f"multi-bit tests never met in a conforming step: {missing}")
     rep.setcov("multibit_test_classes_seen", sorted(c for c in test_classes if c.split(":")[1] in G.MULTIBIT))
     for key in ("timing_active_edges", "timing_inactive_edges", "timing_no_edge", "timing_prints", "timing_stops",
-                "timing_active_edges_nothing_enabled", "timing_both_domains_edge", "timing_rst_events"):
+                "timing_active_edges_nothing_enabled", "timing_both_domains_edge", "timing_rst_events",
+                "timing_mon_rst_rise_would_fail", "timing_mon_rst_rise_would_pass", "timing_mon_rst_rise_would_print",
+                "timing_mon_rst_fall_would_fail", "timing_mon_rst_fall_would_pass", "timing_mon_rst_fall_would_print"):
         rep.require(not guards or rep.cov.get(key, 0) > 0, f"{key} never exercised")
     rep.assume("Python's built-in format() is the reference for the text (as the property statement says)")
     rep.assume("Part A catches the AssertionError at the ctx.set that produced the edge (same exception object that run() propagates); "
